@@ -162,6 +162,24 @@ def run(chk):
         # answer depend on other managers
         g3.bad('imb_errno@' + fn, loc,
                'process-wide imb_errno consulted in %s: the per-manager answer depends on what other managers/threads did' % fn)
+    # ---- G9: a process-wide cache is written by ONE site of its writer: a second write on the way (clear, then refill) gives other threads a
+    # transient value, where rewriting the same final value is a benign race
+    g9 = chk.rule('G9', 'each allow-listed process-wide object is written (or handed out for writing) at one site of its writer function only: '
+                        'no transient value between a clear and a refill is visible to other threads', floor=4)
+    import collections as _col
+    sites = _col.Counter()
+    where = {}
+    for n, ws in writers.items():
+        for fn, kind, loc in ws:
+            sites[(n, fn)] += 1
+            where.setdefault((n, fn), []).append(loc)
+    for (n, fn), k in sorted(sites.items()):
+        if n not in allow:
+            continue
+        limit = 2 if n == ctr else 1      # the session counter is read and advanced through the atomic helper (two hand-outs of its address)
+        g9.check(k <= limit, '%s<-%s' % (n, fn), sorted(where[(n, fn)])[-1],
+                 '%s writes / hands out %s at %d sites (%s): between them other threads see a value that is neither the old nor the final one' % (
+                     fn, n, k, ', '.join(x.split('/')[-1] for x in sorted(where[(n, fn)]))))
     # ---- G6 who-may-call: the fallback of imb_get_errno() (K6) makes its answer for a manager whose own status is 0 depend on what any
     # other manager recorded; library code that decides anything on it couples managers.  Library code reads mb_mgr->imb_errno.
     g6 = chk.rule('G6', 'no library function other than the accessor itself calls imb_get_errno(): its answer falls back to the '
